@@ -252,3 +252,77 @@ Section ChainSpec.
     - unfold excluded, excluded_items, class_of. now rewrite citems_decorate, nomult_citems.
   Qed.
 End ChainSpec.
+
+(** ------------------------------------------------------------------ (iii) the fragment reader on the written text *)
+From CGV Require Import Reader.ReaderImpl Reader.Grammar Reader.Lin Reader.ReaderEnd Write.PathRound Write.FragRead.
+
+Definition plainl (l : list (Z * Z * nodex)) : list (Z * Z * pystr) := map (fun y => (fst y, fst (snd y))) l.
+Lemma clean_chain a0 : forall l x sp,
+  s_clean (cspec a0 sp x l) = s_clean sp ++ path_text [] (fst x) (plainl l).
+Proof.
+  induction l as [|[[o k] x'] r IH]; intros x sp; cbn [cspec plainl map path_text s_clean fst snd].
+  - unfold coarse_text. now rewrite app_nil_r.
+  - rewrite IH. cbn [s_clean]. fold (plainl r). rewrite <- zsym_bsym. unfold coarse_text.
+    assert (E : forall s nm ll, path_text s nm ll = s ++ path_text [] nm ll) by (intros s nm ll; destruct ll as [|[[? ?] ?] ?]; reflexivity).
+    rewrite (E (zsym o)). rewrite <- ?app_assoc. reflexivity.
+Qed.
+
+(** the reader model on a chain text WITHOUT braces (fragment texts) *)
+Theorem read_chain_nobrace : forall fo A nm0 (l : list (Z * Z * pystr)),
+  Forall (fun y => 0 <= fst (fst y) <= 4) l ->
+  Forall (fun n => name_ok fo n = true) (path_names nm0 l) ->
+  Forall (fun n => parse_graph_base_node fo n = Ok (A n)) (path_names nm0 l) ->
+  read_cgsmiles fo (path_text [] nm0 l) = Ok (nx_build A nm0 l).
+Proof.
+  intros fo A nm0 l Ho Hn Hp. rewrite path_text_lins by assumption. cbn [app].
+  destruct (path_lins_ok fo l nm0 Hn) as [A1 [A2 A3]].
+  rewrite reader_sim_lin_nobrace.
+  - unfold denote_lin. rewrite (m_run_path fo A l nm0 m_init Hp Ho). reflexivity.
+  - unfold lins_ok. rewrite A1, A2. cbn [andb]. destruct (path_lins nm0 l) as [|i t]; [reflexivity|]. now rewrite A3.
+Qed.
+
+(** C08 for coarse fragment chains: the text the writer produces for the chain is read by the model of the
+    coarse branch of fragment_iter (strip_bonding_descriptors, then read_fragment_cgsmiles) as: the chain numbered
+    0..n with the parsed attributes of the names and the bond orders, post-processed with exactly the descriptor
+    dict {i : Di} the chain carried *)
+Theorem coarse_chain_roundtrip : forall fo A a0 fragname k0 x0 (l : list (Z * Z * nodex)),
+  fragment_node_parser fo [] = Ok a0 ->
+  NoDup (k0 :: rest_keys (mk_restx l)) -> (forall k, In k (rest_keys (mk_restx l)) -> k0 <= k) ->
+  okn x0 -> Forall (fun y => 0 <= fst (fst y) <= 4 /\ okn (snd y)) l ->
+  Forall (fun n => name_ok fo n = true) (path_names (fst x0) (plainl l)) ->
+  Forall (fun n => parse_graph_base_node fo n = Ok (A n)) (path_names (fst x0) (plainl l)) ->
+  exists txt, write_graph false (fun _ => true) (path_graph k0 (fattrs x0) (mk_restx l)) [] = Ok txt
+    /\ read_coarse_fragment fo fragname txt
+       = (let sp := cspec a0 sinit x0 l in
+          let g := nx_build A (fst x0) (plainl l) in
+          let g1 := set_nodes_from g (S "atomname") (get_node_attributes g (S "fragname")) in
+          let g2 := set_nodes_from g1 (S "bonding") (bonding_values (s_desc sp)) in
+          let g3 := set_all_nodes g2 (S "fragname") (VStr fragname) in
+          let g4 := set_all_nodes g3 (S "fragid") (VInt 0) in
+          let g5 := set_all_nodes g4 (S "w") (VInt 1) in
+          Ok (update_nodes_from g5 (node_updates (s_ann sp)))).
+Proof.
+  intros fo A a0 fragname k0 x0 l Hp0 ND Hmin [Hb0 Hx0] Hl Hn Hp.
+  exists (ctext [] x0 l). split.
+  - apply write_chain_frag; try assumption. eapply Forall_impl; [|exact Hl]. intros y [H1 [_ H2]]. auto.
+  - unfold read_coarse_fragment.
+    rewrite (strip_chain fo a0 Hp0 x0 l (conj Hb0 Hx0)) by (eapply Forall_impl; [|exact Hl]; intros y [_ H]; exact H).
+    unfold sres. cbn [bind]. unfold read_fragment_cgsmiles. rewrite (clean_chain a0 l x0 sinit). cbn [s_clean sinit app].
+    rewrite (read_chain_nobrace fo A (fst x0) (plainl l)); [reflexivity| |exact Hn|exact Hp].
+    clear - Hl. induction l as [|[[o k] x] r IH]; [constructor|]. cbn [plainl map]. constructor; [cbn; exact (proj1 (Forall_inv Hl))|apply IH; exact (Forall_inv_tail Hl)].
+Qed.
+
+(** non-vacuity: a chain with descriptors of every order and bonds of orders 2, 0 *)
+Definition ex_x0 : nodex := (S "A", [("$"%char, S "a", 1%nat); (">"%char, [], 2%nat)]).
+Definition ex_l : list (Z * Z * nodex) := [(2, 5, (S "B", [("!"%char, S "x", 0%nat)])); (0, 7, (S "PEO", [])); (1, 9, (S "A", [("<"%char, [], 3%nat)]))].
+Example coarse_chain_example :
+  write_graph false (fun _ => true) (path_graph 3 (fattrs ex_x0) (mk_restx ex_l)) [] = Ok (S "[#A][$a]=[>]=[#B].[!x].[#PEO][#A]#[<]")
+  /\ match read_coarse_fragment (fun _ => None) (S "X") (S "[#A][$a]=[>]=[#B].[!x].[#PEO][#A]#[<]") with
+     | Ok g => map (fun n => (nk n, aget (S "atomname") (na n), aget (S "bonding") (na n), aget (S "fragname") (na n))) g
+               = [(0, Some (VStr (S "A")), Some (VList [VStr (S "$a1"); VStr (S ">2")]), Some (VStr (S "X")));
+                  (1, Some (VStr (S "B")), Some (VList [VStr (S "!x0")]), Some (VStr (S "X")));
+                  (2, Some (VStr (S "PEO")), None, Some (VStr (S "X")));
+                  (3, Some (VStr (S "A")), Some (VList [VStr (S "<3")]), Some (VStr (S "X")))]
+     | Err _ => False
+     end.
+Proof. split; vm_compute; reflexivity. Qed.
